@@ -24,8 +24,17 @@ def matrix(ctx):
     En1 = E.EEnum('En1', literals=['A', 'B', 'SHARED'])
     En2 = E.EEnum('En2', literals=['SHARED', 'C'])
     free = E.EEnumLiteral('SHARED', value=2)
+    # enumerations with a history: literals given in bulk, a literal renamed, a literal removed and another one taking
+    # its name
+    En3 = E.EEnum('En3')
+    En3.eLiterals.extend([E.EEnumLiteral('X', value=0), E.EEnumLiteral('Y', value=1)])
+    En4 = E.EEnum('En4', literals=['OLD', 'KEEP', 'GONE'])
+    En4.getEEnumLiteral('OLD').name = 'NEW'
+    gone = En4.getEEnumLiteral('GONE')
+    En4.eLiterals.remove(gone)
+    En4.eLiterals.append(E.EEnumLiteral('BACK', value=7))
     dts = [(n, v) for (n, p, t, f, v) in ex.datatype_rows() if n.startswith('ecore.')]
-    types = [('cls:' + k.name, k) for k in K] + [('enum:En1', En1), ('enum:En2', En2)] + [('dt:' + n, v) for n, v in dts]
+    types = [('cls:' + k.name, k) for k in K] + [('enum:En1', En1), ('enum:En2', En2), ('enum:En3', En3), ('enum:En4', En4)] + [('dt:' + n, v) for n, v in dts]
     insts = {k.name: k() for k in K}
     values = [('None', None), ('True', True), ('False', False), ('0', 0), ('1', 1), ('-1', -1), ('2**70', 2 ** 70), ('1.5', 1.5),
               ("'a'", 'a'), ("''", ''), ("'A'", 'A'), ("'SHARED'", 'SHARED'), ("'C'", 'C'), ("'nope'", 'nope'),
@@ -34,6 +43,10 @@ def matrix(ctx):
     values += [('inst:' + n, o) for n, o in insts.items()]
     values += [(f'lit:En1.{l.name}', l) for l in En1.eLiterals] + [(f'lit:En2.{l.name}', l) for l in En2.eLiterals]
     values += [('lit:free.SHARED', free)]
+    values += [(f'lit:En3.{l.name}', l) for l in En3.eLiterals] + [(f'lit:En4.{l.name}', l) for l in En4.eLiterals]
+    values += [('lit:En4.removed', gone), ("'X'", 'X'), ("'OLD'", 'OLD'), ("'NEW'", 'NEW'), ("'GONE'", 'GONE'), ("'BACK'", 'BACK')]
+    # metamodel elements are objects too, of their own (meta)classes
+    values += [('EClass K4', K[4]), ('EDataType EString', E.EString), ('EEnum En1', En1), ('EAttribute', E.EAttribute('zz', E.EString))]
 
     def expected(t, v, many):
         if v is None:
@@ -132,12 +145,83 @@ def matrix(ctx):
     ctx.extra['matrix_values'] = len(values)
 
 
+def opposite_typing(ctx):
+    """a reference declared on a supertype whose opposite is typed by a subtype (`Node.items : Item[*]` <-> `Item.folder :
+    Folder`, `Folder` and `File` both `Node`s): storing an Item into a *File* would make `folder` hold a File — every path
+    must refuse it and change nothing, whichever end does the refusing; the same for a single-valued pair"""
+    from pyecore import ecore as E
+    from pyecore.valuecontainer import BadValueError
+    from pyecore.commands import Add, Set, CommandStack
+    for many_opp in (False, True):
+        Node, Folder, File, Item = E.EClass('Node'), E.EClass('Folder'), E.EClass('File'), E.EClass('Item')
+        Folder.eSuperTypes.append(Node); File.eSuperTypes.append(Node)
+        items = E.EReference('items', Item, upper=-1)
+        folder = E.EReference('folder', Folder, upper=-1 if many_opp else 1, eOpposite=items)
+        main = E.EReference('main', Item)
+        owner = E.EReference('owner', Folder, eOpposite=main)
+        Node.eStructuralFeatures.extend([items, main]); Item.eStructuralFeatures.extend([folder, owner])
+        paths = ['append', 'insert', 'extend', 'iadd', 'assign', 'setitem', 'Add-command', 'set-main', 'eSet-main', 'Set-command']
+        for path in paths:
+            for held in (False, True):
+                docs, file_, i, j = Folder(), File(), Item(), Item()
+                file_items_seed = None
+                if held:
+                    docs.items.append(i)            # i already belongs to a Folder: refusing must not take it away
+                    docs.main = i
+                if path == 'setitem':
+                    continue                        # (needs an element in file.items, which cannot legally get one)
+                objs = [docs, file_, i, j]
+
+                def snap():
+                    return [(id(o), f.name, [id(v) for v in (list(o.eGet(f)) if f.many else ([o.eGet(f)] if o.eGet(f) is not None else []))])
+                            for o in objs for f in o.eClass.eAllReferences()]
+                before = sorted(snap())
+                try:
+                    if path == 'append':
+                        file_.items.append(i)
+                    elif path == 'insert':
+                        file_.items.insert(0, i)
+                    elif path == 'extend':
+                        file_.items.extend([j, i])
+                    elif path == 'iadd':
+                        c = file_.items; c += [i]
+                    elif path == 'assign':
+                        file_.items = [i]
+                    elif path == 'Add-command':
+                        CommandStack().execute(Add(file_, 'items', i))
+                    elif path == 'set-main':
+                        file_.main = i
+                    elif path == 'eSet-main':
+                        file_.eSet('main', i)
+                    elif path == 'Set-command':
+                        CommandStack().execute(Set(file_, 'main', i))
+                    out = 'accepted'
+                except BadValueError:
+                    out = 'BadValueError'
+                except Exception as e:
+                    out = 'raised ' + type(e).__name__
+                ctx.evaluations += 1
+                ctx.count('opposite-typing/' + path)
+                ctx.nontriv(('opposite-typing', many_opp, path, held))
+                after = sorted(snap())
+                what = f'File.{"main" if "main" in path or "Set" in path else "items"} <- Item via {path} (Item.{"owner" if "main" in path or "Set" in path else "folder"} is typed Folder' \
+                       f'{", many-valued" if many_opp else ""}; the Item {"already belongs to a Folder" if held else "is free"})'
+                if out == 'accepted':
+                    ctx.violate({'clause': 'not-rejected', 'path': path, 'type': 'opposite-end'}, f'not-rejected: {what}: accepted',
+                                {'kind': 'opposite-typing', 'path': path, 'held': held, 'many_opposite': many_opp})
+                elif after != before:
+                    ctx.violate({'clause': 'rejected-but-changed', 'path': path, 'type': 'opposite-end'},
+                                f'rejected-but-changed: {what}: {out}, but reference slots changed', 
+                                {'kind': 'opposite-typing', 'path': path, 'held': held, 'many_opposite': many_opp})
+
+
 def run(ctx):
     storecheck.run(ctx, CHECKS)
     matrix(ctx)
+    opposite_typing(ctx)
     ctx.rule += ('; plus the exhaustive conformance matrix: every ecore data type, two enumerations sharing a literal name, 5 classes '
                  'with a diamond x a palette of 35 values (None, bools, ints, floats, strs incl. literal names, bytes, datetime, Decimal, '
-                 'dict, list, type, instances of every class, own/foreign/free-standing literals) x 11 mutation paths')
+                 'dict, list, type, instances of every class, own/foreign/free-standing literals, literals and names of enumerations with a history (bulk-added, renamed, removed), metamodel elements) x 11 mutation paths; plus a pair of opposites whose single end is typed by a subtype of the other end\'s owner: the ill-typed couple offered through 9 paths from the other end')
     ctx.assumptions.append('None offered to a many-valued feature is neither listed nor excluded by the statement and pinned as accepted by the suite: not judged')
 
 
